@@ -710,7 +710,16 @@ fn lattice_system(seed: usize, m: usize, n: usize) -> (Vec<Vec<f64>>, Vec<f64>) 
                 a[m - 1] = a[0].clone();
                 b[m - 1] = b[0] - 0.25;
             }
-            _ => {}
+            _ => {
+                // later parallel row of another positive scale with the *identical raw* bias (round 8, C15-c8): not a
+                // duplicate unless the bias is 0, and the tighter of the two whenever the bias is positive
+                if b[0] == 0.0 {
+                    b[0] = 1.0;
+                }
+                let lam = if seed % 16 == 7 { 2.0 } else { 0.5 };
+                a[m - 1] = a[0].iter().map(|v| lam * v).collect();
+                b[m - 1] = b[0];
+            }
         }
     }
     (a, b)
